@@ -515,7 +515,32 @@ func checkHistory(c *km.Ctx, s *km.Sem) {
 	// loader orientation
 	var stNewest, stOldest []*ssa.Store
 	var stNewerOfNew, stOlderOfPrev *ssa.Store
-	km.Instrs(loader, func(in ssa.Instruction) {
+	// the loader together with the helpers of its own package it calls (the linking may live in a method of the
+	// list type)
+	loaderFam := []*ssa.Function{loader}
+	for i := 0; i < len(loaderFam) && len(loaderFam) < 16; i++ {
+		for _, ci := range km.CallsIn(loaderFam[i]) {
+			g := km.StaticCallee(ci.Common())
+			if g == nil || g.Blocks == nil || g.Pkg != loader.Pkg {
+				continue
+			}
+			seen := false
+			for _, h := range loaderFam {
+				if h == g {
+					seen = true
+				}
+			}
+			if !seen {
+				loaderFam = append(loaderFam, g)
+			}
+		}
+	}
+	inFam := func(fns []*ssa.Function, f func(ssa.Instruction)) {
+		for _, fn := range fns {
+			km.Instrs(fn, f)
+		}
+	}
+	inFam(loaderFam, func(in ssa.Instruction) {
 		st, ok := in.(*ssa.Store)
 		if !ok {
 			return
@@ -562,10 +587,10 @@ func checkHistory(c *km.Ctx, s *km.Sem) {
 	r.Add("R-C20-4", km.FuncName(loader), "loaded nodes are doubly linked", c.P.Pos(loader.Pos()), "event.newer = previous oldest and previous oldest.older = event (expiry walks the .newer links)", sprintf("newer-link=%v older-link=%v", stNewerOfNew != nil, stOlderOfPrev != nil), stNewerOfNew != nil && stOlderOfPrev != nil)
 
 	// retention constant agreement
-	retention := func(fn *ssa.Function) (int64, bool, bool) {
+	retention := func(fns ...*ssa.Function) (int64, bool, bool) {
 		var d int64
 		found, cmp := false, false
-		km.Instrs(fn, func(in ssa.Instruction) {
+		inFam(fns, func(in ssa.Instruction) {
 			if add, ok := in.(*ssa.Call); ok && km.CalleeFull(add.Common()) == "(time.Time).Add" {
 				if _, ok := isCall(add.Common().Args[0], "time.Now"); ok {
 					if k, isC := km.ConstInt(add.Common().Args[1]); isC && k < 0 {
@@ -579,7 +604,7 @@ func checkHistory(c *km.Ctx, s *km.Sem) {
 		})
 		return d, found, cmp
 	}
-	dl, okl, cl := retention(loader)
+	dl, okl, cl := retention(loaderFam...)
 	de, oke, ce := retention(expire)
 	r.Add("R-C20-4", km.FuncName(loader), "retention on load", c.P.Pos(loader.Pos()), "drops entries with CreateTime < now - retention", sprintf("retention=%d ns found=%v compares-CreateTime=%v", dl, okl, cl), okl && cl)
 	r.Add("R-C20-4", km.FuncName(expire), "retention on expiry", c.P.Pos(expire.Pos()), "same retention constant as the loader, compared with CreateTime", sprintf("retention=%d ns found=%v compares-CreateTime=%v same=%v", de, oke, ce, dl == de), oke && ce && dl == de && dl >= 28*24*3600*1e9)
